@@ -208,6 +208,17 @@ def PLookup (source nonce : Nat) (a : Ans) (q : Query) (r : Ans) : Prop :=
 instance (s n : Nat) (a : Ans) (q : Query) (r : Ans) : Decidable (PLookup s n a q r) := by
   unfold PLookup; infer_instance
 
+/-! ### submission (`watchExecution` → `executeBatch` / `executeProposal`) -/
+
+/-- what is submitted when the signature of a session arrives: exactly the proposals of that session, once -/
+def submitted (signed : List Nat) : List (List Nat) := [signed]
+
+/-- PSubmit: one submission, of exactly the signed proposals, in order — so a proposal that was filtered out of
+    every session is never submitted -/
+def PSubmit (signed : List Nat) (subs : List (List Nat)) : Prop := subs = [signed]
+
+instance (a : List Nat) (b : List (List Nat)) : Decidable (PSubmit a b) := by unfold PSubmit; infer_instance
+
 /-! ### histories -/
 
 /-- EVM / Substrate: the destination's executed set only grows -/
